@@ -123,6 +123,37 @@ CLAIMS["C13"] = dict(
          "the implementation, not modelled.",
 )
 
+CLAIMS["C05"] = dict(
+    technique="Lean 4 invariant of the life-cycle state machine over every operation list (induction on histories) + step-by-step history correspondence + history-derived oracle",
+    text="Machine-checked proof, for EVERY list of operations (activations, deactivations in any order, repeated and "
+         "refused activations, attachments, calls) of the life-cycle model M5, that the context holds exactly the active "
+         "probes once each in activation order and each function's instrument_count and capture counters are the sums of "
+         "what the active probes pushed; hence whatever an active probe captures is instrumented by the installed code, a "
+         "call delivers nothing to an inactive probe, a refused activation changes no counter, and whenever no probe is "
+         "active every function runs its original code with all counters zero and no handler installed. The model is "
+         "compared with the implementation after every step of generated histories (outputs, counters, code identity, "
+         "context handlers, completions); delivery and quiescence are also checked against expectations computed from "
+         "the history itself.",
+    design_ref="DESIGN.md section 5, C05",
+    note="The model is hand-written (push/pop/get, autotool with undo, BaseOverlay enter/exit as they are after the fix "
+         "commits F9-F11, F21). Events are delivered through the runtime of C03 (not re-modelled here: one event per "
+         "binding per focused capture).",
+)
+CLAIMS["C17"] = dict(
+    technique="Lean 4 theorems on the probe flags and the observer list over every history (guard monotone, completion at most once, delivery to attached stages of active probes) + history correspondence + reduction oracle",
+    text="Machine-checked proof over the life-cycle model M5, for every history, that a second activation is refused and "
+         "changes nothing and the guard can never be re-armed, that leaving (normally, by exception, explicitly) completes "
+         "exactly the stages attached at that moment, clears them and can happen at most once per probe, and that an event "
+         "reaches exactly the stages attached at that moment of a probe whose handlers are installed. Histories with "
+         "reducing and non-reducing stages (accum, count, sum, min, max, last) built before, during and after the active "
+         "period are run on the implementation: every stage's output is compared with the reduction of exactly the events "
+         "delivered during the active period, and with the model's delivery/completion record.",
+    design_ref="DESIGN.md section 5, C17",
+    note="giving.SourceProxy and the reactivex operators are external: modelled (observer list, complete-then-clear-"
+         "then-_exit) and validated by correspondence, not verified. sum/min/max/last of an empty stream (reactivex error) "
+         "are not checked.",
+)
+
 PENDING_REASON = ("not claimed yet in this build: the Lean model and correspondence check for this property are "
                   "still under construction (see DESIGN.md section 11); the technique applies and the property "
                   "will move to `checks` when its check exists")
